@@ -147,21 +147,23 @@ Definition rd32 (w : bytes) : res (N * bytes) :=       (* ReadInt32 + status che
   | _ => Err
   end.
 
-(* ReadCString on a window + String::SetCstr: the bytes before the first NUL; an unterminated or empty
-   window makes ReadCString return NULL, and SetCstr(NULL) clears the String and reports success *)
+(* ReadCString on a window: the bytes before the first NUL; for an empty or unterminated window it returns
+   NULL and String::Unflatten reports the reader's error status (since the fix ef9bd5e; before it
+   SetCstr(NULL) silently produced the empty String) *)
 Fixpoint upto_nul (w : bytes) : option bytes :=
   match w with
   | [] => None
   | b :: t => if is_nul b then Some [] else
                 match upto_nul t with Some s => Some (b :: s) | None => None end
   end.
-Definition cstr (w : bytes) : bytes := match upto_nul w with Some s => s | None => [] end.
 
 (* ReadFlatsWithLengthPrefixes(&string, 1): always advances by the stated payload size *)
 Definition rd_lp_string (w : bytes) : res (bytes * bytes) :=
   bind (rd32 w) (fun p =>
     let n := fst p in let w1 := snd p in
-    if n <=? len w1 then Ok (cstr (takeN n w1), dropN n w1) else Err).
+    if n <=? len w1 then
+      match upto_nul (takeN n w1) with Some s => Ok (s, dropN n w1) | None => Err end
+    else Err).
 
 Definition num_items_in_buffer (ft : ftype) (w : bytes) : N :=
   let fs := wire_size ft in
@@ -181,8 +183,9 @@ Fixpoint split_fix (n : nat) (sz : N) (w : bytes) : items :=
   | S k => ICons (IFix (takeN sz w)) (split_fix k sz (dropN sz w))
   end.
 
-(* ByteBufferDataArray::TemplatedUnflatten's loop and ReadFlatsWithLengthPrefixes<String> share a shape *)
-Fixpoint dec_lp_items (mk : bytes -> item) (fuel : nat) (n : N) (w : bytes) : res (items * bytes) :=
+(* ByteBufferDataArray::TemplatedUnflatten's loop and ReadFlatsWithLengthPrefixes<String> share a shape;
+   [mk] builds the item from its payload window and may fail (String::Unflatten on unterminated input) *)
+Fixpoint dec_lp_items (mk : bytes -> option item) (fuel : nat) (n : N) (w : bytes) : res (items * bytes) :=
   if n =? 0 then Ok (INil, w) else
   match fuel with
   | O => Fuel
@@ -190,9 +193,23 @@ Fixpoint dec_lp_items (mk : bytes -> item) (fuel : nat) (n : N) (w : bytes) : re
       bind (rd32 w) (fun p =>
         let sz := fst p in let w1 := snd p in
         if sz <=? len w1 then
-          bind (dec_lp_items mk f (N.pred n) (dropN sz w1)) (fun q =>
-            Ok (ICons (mk (takeN sz w1)) (fst q), snd q))
+          match mk (takeN sz w1) with
+          | None => Err
+          | Some it =>
+              bind (dec_lp_items mk f (N.pred n) (dropN sz w1)) (fun q => Ok (ICons it (fst q), snd q))
+          end
         else Err)
+  end.
+
+Definition mk_str (b : bytes) : option item := match upto_nul b with Some s => Some (IStr s) | None => None end.
+Definition mk_raw (b : bytes) : option item := Some (IRaw b).
+
+(* EndianConverter::Import(bool): any non-zero byte is true (since the fix 58a8a1c) *)
+Fixpoint norm_bools (l : items) : items :=
+  match l with
+  | INil => INil
+  | ICons (IFix bs) t => ICons (IFix [bool_byte bs]) (norm_bools t)
+  | ICons i t => ICons i (norm_bools t)
   end.
 
 Section Level.
@@ -248,17 +265,24 @@ Section Level.
     | TBool | TDouble | TFloat | TInt64 | TInt32 | TInt16 | TInt8 | TPoint | TRect =>
         let sz := arr_unit ft in
         if sz =? 0 then Err
-        else if len w mod sz =? 0 then Ok (split_fix (N.to_nat (len w / sz)) sz w, []) else Err
-    | TPointer | TTag => Crash                                  (* MCRASH("This method should never be called!") *)
+        else if len w mod sz =? 0 then
+          let l := split_fix (N.to_nat (len w / sz)) sz w in
+          Ok (match ft with TBool => norm_bools l | _ => l end, [])
+        else Err
+    | TPointer | TTag => Crash                 (* MCRASH("This method should never be called!"): unreachable, see dec_field *)
     | TMessage => dec_msg_items (S (length w)) w
     | TString =>
-        bind (rd32 w) (fun p => dec_lp_items (fun b => IStr (cstr b)) (S (length w)) (fst p) (snd p))
+        bind (rd32 w) (fun p =>
+          (* each element needs at least its 4-byte length prefix (fix eadc089) *)
+          if len (snd p) / c_SIZEOF_uint32 <? fst p then Err
+          else dec_lp_items mk_str (S (length w)) (fst p) (snd p))
     | TRaw =>
-        bind (rd32 w) (fun p => dec_lp_items IRaw (S (length w)) (fst p) (snd p))
+        bind (rd32 w) (fun p => dec_lp_items mk_raw (S (length w)) (fst p) (snd p))
     end.
 
   Definition dec_field (ft : ftype) (w : bytes) : res (repr * bytes) :=        (* MessageField::Unflatten *)
-    if num_items_in_buffer ft w =? 1
+    if negb (ft_flattenable ft) then Err          (* B_POINTER_TYPE / B_TAG_TYPE: B_UNIMPLEMENTED (fix a906343) *)
+    else if num_items_in_buffer ft w =? 1
     then bind (dec_single ft w) (fun q => Ok (RInline (fst q), snd q))
     else bind (dec_array ft w) (fun q => Ok (RArray (fst q), snd q)).
 
